@@ -221,7 +221,14 @@ func (c *Cache[K, V]) List() map[K]*Item[V] {
 	c.mu.RLock()
 	defer c.mu.RUnlock()
 
-	return c.items
+	// Hand out a copy: the caller ranges over the result without the lock,
+	// while Set, Update, Delete and the cleanup goroutine keep writing the cache's own map.
+	items := make(map[K]*Item[V], len(c.items))
+	for k, item := range c.items {
+		items[k] = item
+	}
+
+	return items
 }
 
 // Count returns the number of existing items in the cache.
